@@ -367,6 +367,10 @@ class TransferManager(BaseManager):
             logger.exception("error aborting transfer before removal : %s", transfer)
         finally:
             self._transfers.remove(transfer)
+            # Not every state can be aborted (f.e. a failed download that is
+            # still being retried): make sure no background task outlives the
+            # removal of the transfer
+            await asyncio.gather(*transfer.cancel_tasks(), return_exceptions=True)
             await self._event_bus.emit(TransferRemovedEvent(transfer))
 
         self.request_management_cycle(_RequestFlag.TRANSFER_CHANGE)
